@@ -80,7 +80,7 @@ func (p *Program) reaches(from, to *ssa.Function) bool {
 func newExec(p *Program, cs *ContractSet, fn *ssa.Function, ct *Contract) *Exec {
 	ex := &Exec{u: newUniverse(), prog: p, cs: cs, fn: fn, ct: ct,
 		declSet: map[string]bool{}, inlined: map[string]bool{}, usedContracts: map[string]bool{},
-		maxPaths: 600, goalNames: map[string]int{}, callOrd: map[string]int{}, compIDs: map[string]int{}, compSorts: map[string]string{},
+		maxPaths: 1500, goalNames: map[string]int{}, callOrd: map[string]int{}, compIDs: map[string]int{}, compSorts: map[string]string{},
 		fnIDs: map[*ssa.Function]int{}, closures: map[string]*Closure{}, fieldRefs: map[int]fieldRefInfo{}, implPreds: map[string]*types.Interface{},
 		uncontracted: map[string]bool{}, usedAxioms: map[string]bool{}, reified: map[string]*Ptr{}, unfolded: map[string]bool{}}
 	ex.u.extraDecls = p.spec.text
